@@ -68,9 +68,11 @@ type caseJ struct {
 	InputHex string  `json:"input_hex"`
 	Reader   string  `json:"reader"` // full | half | one
 	Logical  []lsegJ `json:"logical"`
-	// InModel: the configuration satisfies the side condition of edi_roundtrip, so the Coq model's
-	// edi_encode must reproduce the input from the logical segments
+	// InModel: the configuration satisfies the side condition of edi_roundtrip (all 'ok' cases now
+	// that the model's encoder is rune-wise), so the Coq model's edi_encode must reproduce the input
+	// from the logical segments and exp_seg / exp_full the observed results
 	InModel bool   `json:"in_model"`
+	ASCII   bool   `json:"ascii_heads"`
 	Full    *fullJ `json:"full"`
 }
 
@@ -573,10 +575,10 @@ func evaluate(c *caseJ, sum *vh.Summary, cw *vh.CaseWriter, verbose bool) {
 	}
 	sum.Hist("mode:" + c.Mode)
 	if c.Mode == "ok" {
-		if c.InModel {
-			sum.Hist("ok:ascii-heads(in theorem domain)")
+		if c.ASCII {
+			sum.Hist("ok:ascii-first-bytes")
 		} else {
-			sum.Hist("ok:utf8-heads(oracle only)")
+			sum.Hist("ok:utf8-first-runes")
 		}
 	}
 	sum.Hist("reader:" + c.Reader)
